@@ -609,6 +609,8 @@ theorem wait_sim_step (s : St) (e : Ev) (s' : St) (ms : WaitSt) (hR : RelW s ms)
     cases rt with
     | true => simp only [if_true, CorrW]; exact Or.inl ⟨sv, rfl⟩
     | false => simp only [Bool.false_eq_true, if_false, CorrW]; exact ⟨sv, rfl⟩
+  | bodyIn t => rw [step_bodyIn s s' t hs]; exact ⟨ms, rfl, hR⟩
+  | bodyOut t => rw [step_bodyOut s s' t hs]; exact ⟨ms, rfl, hR⟩
   | invWait t p =>
     have ht := htidy' (by intro _ _ _ h; cases h)
     simp only [step] at hs; split at hs <;> try simp at hs
